@@ -37,17 +37,30 @@ func hasSigOp(s []byte) bool {
 	return false
 }
 
-// goOnly runs a program on the implementation only (no model case): no panic, returns in time.
+// returns runs f and reports whether it came back within the (very generous) limit; a run that does
+// not return is abandoned in its goroutine. Wall-clock noise under load stays far below the limit.
+func returns(f func()) bool {
+	done := make(chan struct{})
+	go func() { defer close(done); f() }()
+	select {
+	case <-done:
+		return true
+	case <-time.After(180 * time.Second):
+		return false
+	}
+}
+
+// goOnly runs a program on the implementation only (no model case): no panic, returns.
 func goOnly(p *interpgen.Program) {
-	t0 := time.Now()
-	obs, msg := interpgen.RunPlain(p)
-	r2 := interpgen.Run(p, false)
+	var obs, msg string
+	var r2 interpgen.Result
+	if !returns(func() { obs, msg = interpgen.RunPlain(p); r2 = interpgen.Run(p, false) }) {
+		c.Violate("Engine.Execute/does-not-return", "no result after 180 s", p)
+		return
+	}
 	c.Tally(p.Kind + "/go-only/" + obs)
 	if obs == "panic" || r2.Obs == "panic" {
 		c.Violate("Engine.Execute/panic", msg+r2.Err, p)
-	}
-	if time.Since(t0) > 10*time.Second {
-		c.Violate("Engine.Execute/does-not-return-in-time", time.Since(t0).String(), p)
 	}
 	c.Case("", p, key(p), true)
 }
@@ -62,10 +75,8 @@ func emitOrGoOnly(p *interpgen.Program) {
 		goOnly(p)
 		return
 	}
-	t0 := time.Now()
-	emit(p)
-	if time.Since(t0) > 10*time.Second {
-		c.Violate("Engine.Execute/does-not-return-in-time", time.Since(t0).String(), p)
+	if !returns(func() { emit(p) }) {
+		c.Violate("Engine.Execute/does-not-return", "no result after 180 s", p)
 	}
 }
 
